@@ -180,7 +180,7 @@ def check_case(ctx, case):
     rng = random.Random(case.get("pseed", 0))
     entry = case.get("entry", "normalize")
     big = bool(case.get("big"))
-    if not C.varfree_in_scope(s):
+    if not C.tree_in_scope(s):
         ctx.count("inputs_out_of_scope")
         return
     ctx.count("cases")
